@@ -12,7 +12,7 @@ from . import ops
 from .calls import BoundMethodResultKeys, Coro, GenValue, MapKeyList, MapValues
 from .contracts import Callback, ClassContract, Clause, FnContract
 from .ctx import ContractError, PathEnd, Unsupported
-from .interp import BreakSig, ContinueSig, Frame, MaybeUnbound, ReturnSig, assigned_names
+from .interp import BreakSig, ContinueSig, Frame, MaybeUnbound, ReturnSig, assigned_names, mutated_names
 from .ops import PyRaise, mk_exc
 from .source import class_of, fields_assigned_outside_init, find_def, method_def
 from .sym import (
@@ -518,6 +518,8 @@ class RulesMixin:
                 return self.make_symbolic("hdrs", name)
             if sq is None and not v.items:
                 raise Unsupported(f"cannot havoc empty list {name} (declare its type in the loop spec)")
+            if sq is None and v.items and all(isinstance(x, (str, SymStr)) for x in v.items):
+                return self.make_symbolic("strs", name)
             if sq is not None:
                 return PList(sym=SymSeq(ctx.fresh(name, sq.e.sort()), sq.elem))
         if isinstance(v, SymAny):
@@ -703,6 +705,7 @@ class RulesMixin:
                             self.ctx.prove(f"{unit}.published.{cl.name}", z3.Implies(stored, self.as_z3_bool(val)), cl.text, where, note=f"published invariant of an element of self.{f}", props=cl.props)
 
     def havoc_all(self, use_rely=True):
+        self.havoc_with_rely = use_rely
         reach = self.reachable_objects()
         self.shared = [o for o in getattr(self, "shared", []) if id(o) in reach]
         objs = list(self.shared)
@@ -742,7 +745,14 @@ class RulesMixin:
         if cc is None:
             return None
         old = self.snapshot_env({"self": obj})
+        stable = set()
+        if obj is self.unit_self and getattr(self, "havoc_with_rely", True):
+            # fields that only this unit's task writes (other tasks prove they leave them alone,
+            # see the task_rely clause that goes with task_stable)
+            stable = set(cc.task_stable.get(self.own_task(), []))
         for f in self.mutable_fields(obj, cc):
+            if f in stable:
+                continue
             if f in obj.fields and obj.fields[f] is UNSET and not cc.fields.get(f, "").startswith("maybe"):
                 continue
             if f not in obj.fields and f not in cc.ghost and not cc.fields.get(f, "").startswith("maybe"):
@@ -916,7 +926,7 @@ class RulesMixin:
         ordinal = self.loop_ordinal(s, fr)
         label = f"{fr.fn_qual.split(':')[1]}.loop{ordinal}"
         is_for = isinstance(s, ast.For)
-        mod = assigned_names(s.body)
+        mod = assigned_names(s.body) | {n for n in mutated_names(s.body) if n in fr.locals}
         target_names = assigned_names([s.target]) if is_for else set()
         heap = self.body_heap_effect(s.body)
         n_expr = self.tail_len(tail) if tail is not None else None
@@ -950,11 +960,17 @@ class RulesMixin:
                     b = z3.Bool(ctx.fresh_name(f"bound({name})@{label}"))
                     fr.locals[name] = MaybeUnbound(b, val)
             elif name in fr.locals and not isinstance(fr.locals[name], MaybeUnbound):
-                fr.locals[name] = self.havoc_like(fr.locals[name], f"{name}@{label}")
+                cur = fr.locals[name]
+                new = self.havoc_like(cur, f"{name}@{label}")
+                if isinstance(cur, PList) and isinstance(new, PList):
+                    cur.items, cur.sym = new.items, new.sym  # same list object, unknown content
+                else:
+                    fr.locals[name] = new
             else:
-                raise Unsupported(
-                    f"{label}: local '{name}' is assigned in the loop and unbound before it; give its type in loops[{ordinal}]['locals']"
-                )
+                # unbound before the loop and no declared type: fine as long as every read is
+                # preceded by an assignment on the same path (a read of it is reported then)
+                b = z3.Bool(ctx.fresh_name(f"bound({name})@{label}"))
+                fr.locals[name] = MaybeUnbound(b, LazyUnknown(f"{label}: local '{name}' is read after being assigned in an earlier iteration; give its type in loops[{ordinal}]['locals']"))
         for name in target_names:
             fr.locals.pop(name, None)
         if heap:
@@ -968,9 +984,14 @@ class RulesMixin:
         if tail is not None:
             i = ctx.fresh(f"_i@{label}", z3.IntSort())
             ctx.assume(z3.And(i >= 0, i <= n_expr))
-        for cl in invs:
-            v = self.spec_eval_loop(cl, env_for(mk_int(i) if i is not None else 0), pre_env, fr)
-            ctx.assume(self.as_z3_bool(v), f"loop inv {cl.name}")
+        prevq = getattr(self, "qmode", "prove")
+        self.qmode = "assume"
+        try:
+            for cl in invs:
+                v = self.spec_eval_loop(cl, env_for(mk_int(i) if i is not None else 0), pre_env, fr)
+                ctx.assume(self.as_z3_bool(v), f"loop inv {cl.name}")
+        finally:
+            self.qmode = prevq
         # 3. one arbitrary iteration, or exit
         if tail is not None:
             k = ctx.choose(2, label, ["iter", "exit"])
@@ -1201,6 +1222,11 @@ class RulesMixin:
         if isinstance(cls, str):
             return models.MODEL_CLASSES.get(cls)
         return models.MODEL_BY_REAL.get(cls)
+
+
+class LazyUnknown:
+    def __init__(self, msg):
+        self.msg = msg
 
 
 class GhostFn:
